@@ -445,8 +445,12 @@ def make_runner(mode, shape=DEF_SHAPES[0], node='FunctionDef', kind='function', 
                 class SuperObj:
                     def _vf_getattr(self, interp_, name):
                         return sup_target
-                I.builtins['super'] = lambda *a: SuperObj()
-                harness.run_unit(I, spm.ns['forwards_to_super'], [1], [('obj', obj), ('cls', Opaque('cls')), ('use_varargs', False)], r)
+                real_super = I.builtins['super']
+                I.builtins['super'] = lambda *a: SuperObj()      # only for the duration of the unit
+                try:
+                    harness.run_unit(I, spm.ns['forwards_to_super'], [1], [('obj', obj), ('cls', Opaque('cls')), ('use_varargs', False)], r)
+                finally:
+                    I.builtins['super'] = real_super
         elif mode == 'spec_forwards':
             spm = I.module('sigtools.specifiers')
             wrapper, wrapped = new_obj('wrapper'), new_obj('wrapped')
